@@ -14,7 +14,7 @@ import (
 // c03Order is the oracle on the implementation's own answer: identity-unique,
 // only nodes of the queried tree, strictly monotone in document order,
 // ascending when no reverse axis is used and for every union.
-func c03Order(d *adoc.Doc, ctx *adoc.Node, e refExpr, got, want Outcome) string {
+func c03Order(d *adoc.Doc, ctx *adoc.Node, e refExpr, got, want Outcome, _ EnvSpec) string {
 	if got.Type != "node-set" {
 		return ""
 	}
@@ -194,6 +194,6 @@ func init() {
 			return ""
 		}
 		got := ExecImpl(b, b.ToCur[ctx], g, x.Env.ImplSettings(b))
-		return c03Order(b.Doc, ctx, refExpr{x.Expr, ast, nil}, got, got)
+		return c03Order(b.Doc, ctx, refExpr{x.Expr, ast, nil}, got, got, x.Env)
 	}
 }
